@@ -6,11 +6,19 @@
 #include "matrix.h"
 #include "interpolate.h"
 #define NP (HP_K-1)
+#ifndef HP_PREFILL
+#define HP_PREFILL 0
+#endif
 #ifndef HP_PJ
 #define HP_PJ 0
 #endif
 void harness(void){
-  matrix *xy,*S; NewMatrix(&xy,HP_K,2); initMatrix(&S); double X[HP_K], Y[HP_K];
+  matrix *xy,*S; NewMatrix(&xy,HP_K,2);
+#if HP_PREFILL
+  NewMatrix(&S,HP_K-1,5); for(size_t i=0;i+1<HP_K;i++)for(size_t j=0;j<5;j++) S->data[i][j]=in_double(-1e3,1e3);
+#else
+  initMatrix(&S);
+#endif double X[HP_K], Y[HP_K];
 #if HP_WHICH==2
   for(size_t i=0;i<HP_K;i++) X[i]=(double)(i*i)+0.5*(double)i-1.25;      /* concrete irregular knots: the piece search is decided by constants */
 #else
